@@ -196,6 +196,38 @@ func constructs() []construct {
 			r.err = it.Close()
 			r.ordered, r.errOK = false, true
 		}},
+		// a worker count below one means one worker, whichever way the option is supplied
+		{"ProcessParallel/NumWorkers<1", func(ctx context.Context, in []int, w int, r *result) {
+			conf := &fun.WorkerGroupConf{NumWorkers: 1 - w} // 0, -1
+			err := fun.SliceIterator(in).ProcessParallel(func(_ context.Context, v int) error { r.out = append(r.out, v); return nil }, fun.WorkerGroupConfSet(conf)).Run(ctx)
+			r.err = err
+			r.ordered = true
+		}},
+		{"itertool.Map/NumWorkers<1", func(ctx context.Context, in []int, w int, r *result) {
+			conf := &fun.WorkerGroupConf{NumWorkers: 1 - w}
+			it := itertool.Map(fun.SliceIterator(in), func(_ context.Context, v int) (int, error) { return v, nil }, fun.WorkerGroupConfSet(conf))
+			_ = drain(ctx, it, &r.out)
+			r.err = it.Close()
+			r.ordered = true
+		}},
+		// Split outputs consumed the iterator way (Next / Value), one goroutine per output
+		{"Split/NextValue", func(ctx context.Context, in []int, w int, r *result) {
+			parts := fun.SliceIterator(in).Split(w)
+			fin := make(chan struct{}, len(parts))
+			for _, p := range parts {
+				p := p
+				go func() {
+					for p.Next(ctx) {
+						r.out = append(r.out, p.Value())
+					}
+					fin <- struct{}{}
+				}()
+			}
+			for range parts {
+				<-fin
+			}
+			r.ordered = w == 1
+		}},
 		// fan-out followed by fan-in
 		{"Split+MergeIterators", func(ctx context.Context, in []int, w int, r *result) {
 			it := fun.MergeIterators(fun.SliceIterator(in).Split(w)...)
